@@ -688,7 +688,7 @@ func siteIn(f *ssa.Function, in ssa.Instruction) ssa.Instruction {
 		}
 		var site ssa.Instruction
 		n := 0
-		for _, s := range gCallSitesOf[np] {
+		for _, s := range sitesOf(np) {
 			if lexicalOutermost(s.Parent()) == lexicalOutermost(f) || gNewFuncs[lexicalOutermost(s.Parent())] {
 				site = s
 				n++
@@ -773,10 +773,10 @@ func projectChain(in ssa.Instruction) []ssa.Instruction {
 	cur := in
 	for depth := 0; depth < 4; depth++ {
 		p := outermostNew(cur.Parent())
-		if p == nil || len(gCallSitesOf[p]) != 1 {
+		if p == nil || len(sitesOf(p)) != 1 {
 			break
 		}
-		cur = gCallSitesOf[p][0]
+		cur = sitesOf(p)[0]
 		out = append(out, cur)
 	}
 	return out
@@ -877,4 +877,44 @@ func hostFn(f *ssa.Function, in ssa.Instruction) *ssa.Function {
 		}
 	}
 	return f
+}
+
+
+// ---- binding context ------------------------------------------------------------------------------
+// A helper the reference tree does not have may be shared by sibling operations (signDigest called by
+// SignHash and by SignMessage). While a rule is evaluated for one anchored function, a parameter of such a
+// helper stands for the arguments at the call sites that lie in that function's body only — binding it
+// to the siblings' arguments as well would mix the siblings' data flows. gBindCtx is set by MustFn (the
+// function a rule is anchored at) and holds the lexical top-level functions of bodyFns(f).
+var gBindCtx map[*ssa.Function]bool
+
+func setBindCtx(f *ssa.Function) {
+	gBindCtx = nil
+	if f == nil || len(gNewFuncs) == 0 {
+		return
+	}
+	ctx := map[*ssa.Function]bool{}
+	for _, g := range bodyFns(f, nil) {
+		ctx[lexicalOutermost(g)] = true
+	}
+	gBindCtx = ctx
+}
+
+// sitesOf: the call sites of new helper h that count in the current binding context (all of them when
+// none lies in the context).
+func sitesOf(h *ssa.Function) []ssa.CallInstruction {
+	all := gCallSitesOf[h]
+	if gBindCtx == nil || len(all) < 2 {
+		return all
+	}
+	var in []ssa.CallInstruction
+	for _, s := range all {
+		if gBindCtx[lexicalOutermost(s.Parent())] {
+			in = append(in, s)
+		}
+	}
+	if len(in) == 0 {
+		return all
+	}
+	return in
 }
